@@ -34,14 +34,29 @@ impl ZmodN {
     /// consequences of the invariant that callers outside this module need
     pub proof fn lemma_wf_r(&self)
         requires self.wf()
-        ensures self.r_val() < self.nval(), self.nval() % 2 == 1, self.nval() >= 1
+        ensures self.r_val() < self.nval(), self.nval() % 2 == 1, self.nval() >= 1,
+            self.r_val() == self.rr() % self.nval(), self.rr() == pow2(64 * self.kval()),
     {
         lemma_mod_bound(pow_w(self.k as nat) as int, uv(self.n) as int);
+        lemma_pow_w_is_pow2(self.k as nat);
     }
 }
 impl MInt {
     pub open spec fn val(&self) -> nat { limbs(self.0@) }
+    /// equal values, equal residues (the eight words are a positional representation)
+    pub proof fn lemma_val_inj(a: MInt, b: MInt)
+        ensures (a.val() == b.val()) == (a == b)
+    {
+        if a.val() == b.val() {
+            lemma_limbs_inj(a.0@, b.0@);
+            assert(a.0@ =~= b.0@);
+            assert(a.0 == b.0);
+        }
+    }
 }
+/// the derived `PartialEq` of MInt (word-wise comparison of the array)
+pub assume_specification [<MInt as core::cmp::PartialEq>::eq] (a: &MInt, b: &MInt) -> (r: bool)
+    ensures r == (*a == *b);
 pub assume_specification [<MInt as core::default::Default>::default] () -> (r: MInt)
     ensures forall|k: int| 0 <= k < 8 ==> r.0@[k] == 0;
 } // verus!
